@@ -347,6 +347,9 @@ type slot struct {
 	c     cont
 	ref   []int // reference array; nil = the predicate is not evaluated on this slot
 	dirty bool  // a Set outside the property's domain was applied: predicate off
+	// a ReadFrom into this container failed: only its configuration and length are relied upon, every
+	// step prints ~ until a later read into it succeeds (that read must restore a correct container)
+	tainted bool
 }
 
 type script struct {
@@ -493,6 +496,10 @@ func (s *script) set(a, i, v int) {
 		s.tok(c, "-")
 		return
 	}
+	if sl.tainted {
+		s.tok(c, "~")
+		return
+	}
 	p := hx.Try(func() { sl.c.Set(i, v) })
 	valid := i >= 0 && i < s.n && s.inReg(v)
 	if p != "" {
@@ -539,6 +546,10 @@ func (s *script) get(a, i int) {
 		s.tok(c, "-")
 		return
 	}
+	if sl.tainted {
+		s.tok(c, "~")
+		return
+	}
 	var g int
 	p := hx.Try(func() { g = sl.c.Get(i) })
 	if p != "" {
@@ -562,6 +573,10 @@ func (s *script) sweep(a int) {
 		s.tok(c, "-")
 		return
 	}
+	if sl.tainted {
+		s.tok(c, "~")
+		return
+	}
 	outs := make([]outc, 0, max(s.n, 0))
 	for j := 0; j < s.n; j++ {
 		var g int
@@ -580,6 +595,10 @@ func (s *script) introspect(a int) {
 	sl := s.sl[a]
 	if sl == nil {
 		s.tok(c, "-")
+		return
+	}
+	if sl.tainted {
+		s.tok(c, "~")
 		return
 	}
 	in := sl.c.Info()
@@ -636,6 +655,10 @@ func (s *script) write(a int) {
 		s.tok(c, "-")
 		return
 	}
+	if s.sl[a].tainted {
+		s.tok(c, "~")
+		return
+	}
 	img, n, bad := s.writeImg(a)
 	if bad != "" {
 		s.tok(c, "W!"+bad)
@@ -652,6 +675,10 @@ func (s *script) specRead(a int) {
 	c := fmt.Sprintf("C%d", a)
 	if s.sl[a] == nil {
 		s.tok(c, "-")
+		return
+	}
+	if s.sl[a].tainted {
+		s.tok(c, "~")
 		return
 	}
 	img, _, bad := s.writeImg(a)
@@ -674,6 +701,11 @@ func (s *script) xfer(a, b int, junk []byte) {
 		s.tok(c, "-")
 		return
 	}
+	if s.sl[a].tainted {
+		s.tok(c, "~")
+		return
+	}
+	wasTainted := s.sl[b].tainted
 	img, n, bad := s.writeImg(a)
 	if bad != "" {
 		s.tok(c, "X!"+bad)
@@ -691,16 +723,23 @@ func (s *script) xfer(a, b int, junk []byte) {
 	case p != "":
 		s.tok(c, "X!panic")
 		s.o.Fail("C12.wire.read.panic", "%s ReadFrom(own image) panicked: %s | %s", kindName[s.kind], p, s.brief())
-		s.sl[b] = nil
+		s.sl[b].tainted, s.sl[b].ref = true, nil
 	case err != nil:
 		s.tok(c, "X!err")
 		if good {
 			s.o.Fail("C12.wire.roundtrip", "%s ReadFrom(own image, %d bytes) failed: %v | %s", kindName[s.kind], len(img), err, s.brief())
 		}
-		s.sl[b] = nil
+		s.sl[b].tainted, s.sl[b].ref = true, nil
 	default:
 		s.tok(c, fmt.Sprintf("X=%d/%d", rn, r.Len()))
 		s.nontrv = true
+		s.sl[b].tainted = false
+		if wasTainted && good {
+			// recovery: the read after a failed read must give a correct container
+			s.sl[b].ref = append([]int{}, src.ref...)
+			s.sl[b].dirty = false
+			s.checkAll(b, "C12.wire.recover", "after a successful read into a container left behind by a failed read")
+		}
 		if rn != int64(len(img)) || r.Len() != len(junk) {
 			s.o.Fail("C12.wire.consumed", "%s ReadFrom returned n=%d and left %d bytes; image %d bytes, %d bytes followed | %s", kindName[s.kind], rn, r.Len(), len(img), len(junk), s.brief())
 		}
@@ -731,17 +770,17 @@ func (s *script) feed(b int, in []byte, class string) {
 	case p != "":
 		s.tok(c, "T!panic")
 		s.o.Fail("C12.wire.read.panic", "%s ReadFrom(%s) panicked: %s", kindName[s.kind], hx.Hex(in[:min(len(in), 40)]), p)
-		s.sl[b] = nil
+		s.sl[b].tainted, s.sl[b].ref = true, nil
 	case err != nil:
 		s.tok(c, "T!err")
 		if ok && class != "" {
 			s.o.Fail(class, "%s ReadFrom refused a well-formed container (bits byte %d, %d bytes): %v", kindName[s.kind], in[0], len(in), err)
 		}
-		s.sl[b] = nil
+		s.sl[b].tainted, s.sl[b].ref = true, nil
 	default:
 		s.tok(c, fmt.Sprintf("T=%d/%d", rn, r.Len()))
 		dst := s.sl[b]
-		dst.ref, dst.dirty = nil, false
+		dst.ref, dst.dirty, dst.tainted = nil, false, false
 		if ok && class != "" {
 			s.nontrv = true
 			if int(rn) != used || r.Len() != len(in)-used {
@@ -1081,24 +1120,37 @@ func (g *gen) withDataHistory(kind int) {
 	s.done()
 }
 
-// a save section as vanilla writes it when it holds more than 256 distinct block states: a palette and
-// indices of ceil(log2(len(palette))) = 9..15 bits.  The library has no indirect palette wider than 8
-// bits and takes such data for direct ids (KNOWN FINDING C12-withdata-wide-indirect).
-func (g *gen) withDataWide() {
+// a save section as vanilla writes it when it holds more entries than the widest indirect palette of
+// the library (256 block states, 8 biomes): a palette and indices of ceil(log2(len(palette))) bits.
+// (Panicked before fix 6364be8: the indices were taken for direct ids.)  Followed by the usual history.
+func (g *gen) withDataWide(kind int) {
 	n := 4096
-	s := newScript(g.o, "withdata-wide.states", kStates, n)
-	k := g.r.Pick(257, 300, 513, 1100)
-	arr, pal := g.randArray(kStates, n, k)
+	k := g.r.Pick(257, 258, 300, 512, 513, 1100, 2049)
+	if kind == kBiomes {
+		n = 64
+		k = g.r.Pick(9, 10, 16, 17, 32, 33, 40)
+	}
+	s := newScript(g.o, "withdata-wide."+kindName[kind], kind, n)
+	R := regSize[kind]
+	arr, pal := g.randArray(kind, n, min(k, R))
 	w := ceilLog2(len(pal))
 	ks := make([]int, n)
 	for i, v := range arr {
 		ks[i] = indexOf(pal, v)
 	}
 	data := refPack(w, ks)
-	s.initData(0, data, pal, arr, 0, "C12.withdata.states.wide-indirect")
-	s.initNone(1)
+	s.initData(0, data, pal, arr, g.r.Pick(0, 0, 5, 300), "C12.withdata."+kindName[kind]+".wide-indirect")
+	s.initNew(1, g.r.Intn(R))
+	s.introspect(0)
 	s.sweep(0)
-	g.o.Case("savespec", true, fmt.Sprintf("sv s %d %d %s %s", w, n, rawStr(data), intsStr(pal)), "sv "+hashInts(arr))
+	g.o.Case("savespec", true, fmt.Sprintf("sv %s %d %d %s %s", kindCh[kind], w, n, rawStr(data), intsStr(pal)), "sv "+hashInts(arr))
+	for t := 0; t < 10; t++ {
+		s.set(0, g.pos(n), g.r.Intn(R))
+	}
+	s.sweep(0)
+	s.xfer(0, 1, g.junk())
+	s.sweep(1)
+	s.specRead(1)
 	s.done()
 }
 
@@ -1212,6 +1264,66 @@ func (g *gen) feedHistory(kind int) {
 	s.done()
 }
 
+// a read that fails part-way (truncated image, negative length, wrong long count, junk) into a used
+// container, then a read of the image of the other container into what was left behind, then the
+// history continues on it
+func (g *gen) recoverHistory(kind int) {
+	n := 4096
+	if kind == kBiomes {
+		n = 64
+	}
+	s := newScript(g.o, "recover."+kindName[kind], kind, n)
+	R := regSize[kind]
+	s.initNew(0, g.r.Intn(R))
+	s.initNew(1, g.r.Intn(R))
+	for a := 0; a < 2; a++ {
+		pre := g.distinct(kind, min(boundaries[kind][g.r.Intn(len(boundaries[kind]))], R))
+		if kind == kStates && g.r.Intn(3) > 0 {
+			pre = g.distinct(kind, g.r.Pick(1, 2, 5, 17, 20, 40))
+		}
+		for _, v := range pre[1:] {
+			s.set(a, g.pos(n), v)
+		}
+	}
+	for round := 0; round < 1+g.r.Intn(3); round++ {
+		k := min(boundaries[kind][g.r.Intn(len(boundaries[kind]))], R)
+		arr, pal := g.randArray(kind, n, k)
+		maxInd := 8
+		if kind == kBiomes {
+			maxInd = 3
+		}
+		bb := max(ceilLog2(len(pal)), 1)
+		if bb > maxInd {
+			bb = gbits[kind]
+		}
+		img := refEncode(kind, gbits[kind], bb, pal, arr)
+		switch g.r.Intn(5) {
+		case 0, 1:
+			img = img[:g.r.Intn(len(img))] // truncated anywhere: bits byte, palette, count, longs
+		case 2:
+			img = append([]byte{byte(g.r.Pick(1, 2, 3, 4, 5, 8))}, refVarInt(int32(g.r.Pick(-1, -2, -1<<31)))...)
+		case 3:
+			img[0] = byte(g.r.Pick(0, 1, 2, 3, 4, 5, 8, 9, 15, 200)) // wrong width for the body
+		default:
+			img = g.r.Bytes(g.r.Intn(30))
+		}
+		s.feed(0, img, "")
+		s.introspect(0) // skipped (~) when the read failed
+		s.set(0, g.pos(n), g.r.Intn(R))
+	}
+	s.xfer(1, 0, g.junk())
+	s.introspect(0)
+	s.sweep(0)
+	ex := g.distinct(kind, min(20, R))
+	for t := 0; t < 10; t++ {
+		s.set(0, g.pos(n), ex[g.r.Intn(len(ex))])
+	}
+	s.sweep(0)
+	s.write(0)
+	s.specRead(0)
+	s.done()
+}
+
 func main() {
 	o := hx.Open()
 	defer o.Close()
@@ -1262,14 +1374,23 @@ func main() {
 	for i := 0; i < o.N(150, 10); i++ {
 		g.withDataHistory(kBiomes)
 	}
-	for i := 0; i < o.N(2, 5); i++ {
-		g.withDataWide()
+	for i := 0; i < o.N(6, 5); i++ {
+		g.withDataWide(kStates)
+	}
+	for i := 0; i < o.N(60, 5); i++ {
+		g.withDataWide(kBiomes)
 	}
 	for i := 0; i < o.N(30, 10); i++ {
 		g.feedHistory(kStates)
 	}
 	for i := 0; i < o.N(200, 10); i++ {
 		g.feedHistory(kBiomes)
+	}
+	for i := 0; i < o.N(15, 10); i++ {
+		g.recoverHistory(kStates)
+	}
+	for i := 0; i < o.N(150, 10); i++ {
+		g.recoverHistory(kBiomes)
 	}
 	for i := 0; i < o.N(20, 10); i++ {
 		g.withDataOdd(kStates)
